@@ -241,7 +241,7 @@ def tie(ctx):
         if tuple(lk) != tuple(kg(nm)):
             fam["natsort_key"]["disagreements"].append({"why": f"natsort key of {nm!r} is {kg(nm)}, model key is {lk}"})
     return {"families": fam, "violations": violations, "evaluations": sum(len(g[2]) for g in runs), "distinct_nontrivial": len(distinct),
-            "rule": "multisets of 0-6 called copies (toy, CYP2D6, CYP2A6, CYP2C19, GSTM1, generated genes with tandems; repeated majors, tandem partners, novel added variants) in all (<= 24 quick / 720 thorough) production orders; non-trivial = at least two copies; distinct by hash of (gene, ordered copies)",
+            "rule": "multisets of 0-6 called copies (toy, CYP2D6, CYP2A6, CYP2C19, GSTM1, generated genes with tandems; repeated majors, tandem partners, the deletion allele itself among the called copies, novel added variants) in all (<= 24 quick / 720 thorough) production orders; non-trivial = at least two copies; distinct by hash of (gene, ordered copies)",
             "samples": samples, "stats": dict(stats)}
 
 
